@@ -48,7 +48,9 @@ def gen(rng, tier):
     rot = rng.random() < 0.5
     naming = rng.choice(["num", "num", "ts"])
     cap = rng.choice([None, None, 8, 64])
-    cfg = g.Cfg(base=b"a", crit=("s%d" % rng.choice([6, 12, 40])) if rot else None, naming=naming, cap=cap, append=rng.random() < 0.5)
+    cfg = g.Cfg(base=b"a", crit=("s%d" % rng.choice([6, 12, 40])) if rot else None, naming=naming, cap=cap, append=rng.random() < 0.5,
+                # (a compressing cleanup with limits beyond what a history produces: nothing is deleted, the archives are read too)
+                cleanup=rng.choice(["n", "n", "n", "g30", "b1.30"]) if rot else "n")
     cur = cfg.name(b"rCURRENT") if rot else cfg.name(b"")
     ops = ["B:" + cfg.token()]
     n = 0
@@ -90,8 +92,10 @@ def gen(rng, tier):
                 rot2 = (not old_rot) if rng.random() < 0.6 else old_rot
                 new_crit = ("s%d" % rng.choice([c for c in (6, 12, 40, 90) if "s%d" % c != cfg.crit])) if rot2 else None
                 cfg = g.Cfg(base=cfg.base, disc=cfg.disc, crit=new_crit, naming=rng.choice(["num", "ts"]), cap=cap,
-                            append=rng.random() < 0.5)
-                if (cfg.name(b"rCURRENT") if rot2 else cfg.name(b"")) in used:
+                            append=rng.random() < 0.5, cleanup=cfg.cleanup if rot2 else "n")
+                # (a writer WITH rotation that finds rCURRENT and does not append closes it under the next name - nothing is
+                #  truncated; only a writer without rotation opens its one file with truncation)
+                if not rot2 and cfg.name(b"") in used:
                     cfg.append = True
             else:
                 cfg = g.Cfg(base=rng.choice([b"b", b"c", b"a2"]) + b"%d" % moved, disc=rng.choice([None, b"x"]),
